@@ -55,6 +55,11 @@ def int_ir(node: ast.AST, env: Dict[str, Any]) -> tuple:
             f = env[f.id]
         if isinstance(f, ast.Name) and f.id == "abs" and len(node.args) == 1:
             return ("abs", int_ir(node.args[0], env))
+        if isinstance(f, ast.Attribute) and un(f) in ("operator.neg", "operator.pos", "operator.abs", "operator.invert", "operator.inv") \
+                and len(node.args) == 1:
+            a = int_ir(node.args[0], env)
+            return {"neg": ("neg", a), "pos": a, "abs": ("abs", a), "invert": ("sub", ("neg", a), ("const", 1)),
+                    "inv": ("sub", ("neg", a), ("const", 1))}[f.attr]
         if isinstance(f, ast.Attribute) and un(f) in ("operator.xor", "operator.and_", "operator.or_", "operator.add",
                                                       "operator.sub") and len(node.args) == 2:
             op = {"xor": "xor", "and_": "and", "or_": "or", "add": "add", "sub": "sub"}[f.attr]
